@@ -750,10 +750,11 @@ HIbitflush(bitrec_t *bitfile_rec, int flushbit, int writeout)
     int write_size; /* number of bytes to write out */
 
     if (bitfile_rec->count < (int)BITNUM) { /* check if there are any */
-        if (bitfile_rec->byte_offset > bitfile_rec->max_offset) {
-            if (flushbit != (-1)) /* only flush bits if asked and there are bits to flush */
-                if (Hbitwrite(bitfile_rec->bit_id, bitfile_rec->count, (uint32)(flushbit ? 0xFF : 0)) == FAIL)
-                    HRETURN_ERROR(DFE_WRITEERROR, FAIL);
+        /* the byte being filled is number byte_offset: it lies past the end of the dataset
+           when byte_offset == max_offset, and is then completed with the flush bit */
+        if (bitfile_rec->byte_offset >= bitfile_rec->max_offset && flushbit != (-1)) {
+            if (Hbitwrite(bitfile_rec->bit_id, bitfile_rec->count, (uint32)(flushbit ? 0xFF : 0)) == FAIL)
+                HRETURN_ERROR(DFE_WRITEERROR, FAIL);
         }      /* end if */
         else { /* we are in the middle of a dataset and need to integrate */
             /* mask off a place for the new bits */
